@@ -15,7 +15,7 @@ LEAN_MODULES = ['Pfst.Props.C02']
 THEOREMS = [
     'Pfst.C02.unmake_dead', 'Pfst.C02.unmake_frame', 'Pfst.C02.linked_injective', 'Pfst.C02.unmake_keeps_linked',
     'Pfst.C02.make_inv', 'Pfst.C02.setAst_inv_partial', 'Pfst.C02.setAst_inv', 'Pfst.C02.setField_inv_partial', 'Pfst.C02.setField_inv', 'Pfst.C02.setAst_wf', 'Pfst.C02.setAst_root_wf', 'Pfst.C02.setField_wf',
-    'Pfst.C02.step_wf', 'Pfst.C02.run_wf', 'Pfst.C02.wfB_iff', 'Pfst.C02.admissibleB_sound', 'Pfst.C02.step_wfB',
+    'Pfst.C02.wf_cacheOnly', 'Pfst.C02.step_wf', 'Pfst.C02.run_wf', 'Pfst.C02.wfB_iff', 'Pfst.C02.admissibleB_sound', 'Pfst.C02.step_wfB',
     'Pfst.C02.root_identity', 'Pfst.C02.touch_preserves_links', 'Pfst.C02.linkInv_mem',
     'Pfst.C02.offset_touches_changed', 'Pfst.C02.offset_cache_coherent', 'Pfst.C02.view_heal', 'Pfst.C02.view_len',
     'Pfst.C02.view_ops_valid', 'Pfst.C02.slicePut_flushes_children', 'Pfst.C02.unpar_flushes_self',
@@ -72,7 +72,7 @@ LEVEL_TEXT = ('Lean 4 theorems about an executable model of the FST/AST link sto
               'node of a detached subtree and writes nothing outside it (frame; a -> a.f is injective on a linked tree, so every '
               'disjoint linked subtree stays linked), make establishes the link invariant on any fresh subtree, set_ast at the root '
               'position and (setAst_inv) at every other position of any linked tree re-establishes it with the same root FST object, the element loop of set_field links every new '
-              'element and writes nothing else, set_field at any node (root included) keeps the whole tree linked (setField_inv), hence by induction over operation sequences of any length every state reached by admissible set_ast / set_field / touch steps is well formed (run_wf: link invariant + pairwise distinct ASTs + existing FST objects; the premises wfB / admissibleB are evaluated by the driver on every real call and tallied), no operation sequence changes the root FST, the _offset walk '
+              'element and writes nothing else, set_field at any node (root included) keeps the whole tree linked (setField_inv), hence by induction over operation sequences of any length every state reached by default-flag set_ast (any position) / set_field (any node) with fresh inputs and touch / touchall (any flags) steps is well formed (run_wf: link invariant + pairwise distinct ASTs + existing FST objects; the premises wfB / admissibleB are evaluated by the driver on every real call and tallied), no operation sequence changes the root FST, the _offset walk '
               'clears the cache of every node whose subtree positions changed (any tree satisfying geo, any parameters) '
               'hence position-determined cached answers stay coherent, view windows stay valid windows, the repaired '
               'cache-flush call sites (slice put to Call/ClassDef/MatchClass, unpar in-place write) empty the caches they must. Tied to /repo '
